@@ -559,3 +559,45 @@ func init() {
 			return ""
 		})
 }
+
+
+// c10TimedJobs: C10 in timed mode, with message delays (non-zero round-trip estimates feed the timer arithmetic).
+func c10TimedJobs(tier string) []*Job {
+	var jobs []*Job
+	per, k := 100, 2
+	if tier == "thorough" {
+		per, k = 1200, 3
+	}
+	mk := func(name string, n int, opts ...opt) *Scenario {
+		sc := timedScen(name, n, "", append([]opt{withHeights(2), withK(k), withHorizon(30)}, opts...)...)
+		sc.Dev.Tick = true
+		sc.Dev.Dup = false
+		sc.SyncDefault = true
+		return sc
+	}
+	jobs = append(jobs, job(mk("C10-timed-N4-amev-off", 4), per))
+	jobs = append(jobs, job(mk("C10-timed-N4-amev-on", 4, withAMEV(0)), per))
+	jobs = append(jobs, job(mk("C10-timed-N4-dyn-idle", 4, withDyn(30), withPool()), per))
+	jobs = append(jobs, job(mk("C10-timed-N1", 1, withHeights(3)), per))
+	// the primary of the second height is cut off after the first decision: view change at a height that directly follows
+	// a height in which the new primary measured a round trip
+	for _, a := range []int64{-1, 0} {
+		probe := mk("probe", 4, withAMEV(a), withHeights(1))
+		w := newWorld(probe.finish(), nil)
+		steps := 0
+		for {
+			evs := w.enabled()
+			if len(evs) == 0 || evs[0].Cost != 0 {
+				break
+			}
+			w.apply(evs[0])
+			steps++
+		}
+		sc := mk("C10-timed-N4-next-primary-cut-"+amevName(a), 4, withAMEV(a), withK(1), withHorizon(40))
+		sc.CutSet = []int{primaryAt(6, 0, 4)}
+		sc.CutAt = steps + 4 // all four Resets of the first height done
+		sc.CutExp = 12
+		jobs = append(jobs, job(sc, per))
+	}
+	return jobs
+}
